@@ -410,7 +410,7 @@ class Cases:
         n_out = len(data) * 3 + 64 if n_out is None else n_out
         items = sweep_items(rng, len(data), n_out, level, rng.randrange(1, 1 << 30))
         cost = est_runs(items, len(data), n_out) * (len(data) + n_out + 200)
-        self.sweeps.append(dict(coder=coder, act=act, data=data, cmp=cmp_, items=items, tag=tag, cost=cost))
+        self.sweeps.append(dict(coder=coder, act=act, data=data, cmp=cmp_, items=items, tag=tag, cost=cost, level=level))
 
     def group(self, tag, cmp_, data, members):
         self.groups.append(dict(tag=tag, cmp=cmp_, data=data, members=members))
@@ -801,6 +801,47 @@ def small_ops(ctx):
         nextmode = rng.choice((0, 1)) if encf else rng.choice((1, 2))
         fin = rng.choice((0, 1))
         ops.append(("delta %d %d %d %d %s %s" % (dist, encf, nextmode, fin, hx(data), " ".join(pairs(n)))).strip())
+    # Index decoder sequence machine (index_decode() driven directly, piece by piece)
+    import zlib
+    for _ in range(150 * N):
+        nrec = rng.choice((0, 0, 1, 1, 2, 3, 5, 17))
+        body = bytearray(b"\x00" + vli_bytes(nrec))
+        for _r in range(nrec):
+            body += vli_bytes(rng.choice((5, 6, 100, 16383, 16384, rng.randrange(5, 1 << 30))))
+            body += vli_bytes(rng.choice((0, 1, 127, 128, rng.randrange(0, 1 << 32))))
+        body += bytes((-len(body)) % 4)
+        body += struct.pack("<I", zlib.crc32(bytes(body)) & 0xFFFFFFFF)
+        data = bytes(body)
+        r = rng.random()
+        if r < 0.5:
+            data = mutate(rng, data, rng.choice(("flip", "byte", "trunc", "trunc-tail", "insert", "delete", "append")))
+        n = len(data)
+        ops.append(("ixd %s %s" % (hx(data), " ".join(pieces(n, rng.randrange(0, 12))))).strip())
+    # LZMA2 chunk-header machine on streams without LZMA payload (uncompressed chunks, end marker, every kind of bad control byte)
+    for _ in range(150 * N):
+        out = bytearray()
+        first = True
+        for _c in range(rng.randrange(0, 5)):
+            r = rng.random()
+            if r < 0.7:
+                ctl = 1 if first or rng.random() < 0.3 else 2
+                if rng.random() < 0.1:
+                    ctl = 2 if first else rng.choice((1, 2))
+                m = rng.choice((1, 2, 3, 10, 256, 257, 5000, rng.randrange(1, 300)))
+                out += bytes([ctl]) + struct.pack(">H", m - 1) + gen_plain(rng, m, rng.choice(("rand", "text")))
+                first = False
+            elif r < 0.8:
+                out += bytes([rng.randrange(3, 0x80)])
+            elif r < 0.9:
+                out += bytes([rng.randrange(0x80, 0xC0), rng.getrandbits(8), rng.getrandbits(8), 0, 5])
+            else:
+                out += bytes([rng.randrange(0xC0, 0x100), 0, rng.getrandbits(8), 0, 3, rng.choice((0x5d, 0xe1, 0xff, 40, 44))])
+        if rng.random() < 0.7:
+            out += b"\x00"
+        data = bytes(out)
+        if rng.random() < 0.25:
+            data = mutate(rng, data, rng.choice(("trunc", "flip", "append")))
+        ops.append("l2d %s" % hx(data))
     return ops
 
 
@@ -844,6 +885,7 @@ def confirm(H, data, cmp_, runs):
 def oracle(ctx, H):
     """The direct C-vs-C slicing oracle. Returns number of violations found."""
     t0 = time.time()
+    ctx.cov.setdefault("timing_ms", {})
     C = build_cases(ctx, H)
     ctx.log("oracle: %d sweeps, %d groups prepared in %.1fs" % (len(C.sweeps), len(C.groups), time.time() - t0))
     lines = ["sweep %s %s %s %s %s" % (s["coder"], s["act"], hx(s["data"]), s["cmp"], " ".join(s["items"])) for s in C.sweeps]
@@ -855,6 +897,10 @@ def oracle(ctx, H):
         if o is None:
             continue
         m = re.search(r" runs=(\d+) diffs=(\d+)$", o)
+        mt = re.search(r" ms=(\d+) runs=", o)
+        if mt:
+            ctx.count("ms:" + kind, int(mt.group(1)), table="timing_ms")
+            ctx.count("ms-level:" + s.get("level", "?"), int(mt.group(1)), table="timing_ms")
         ref = parse_results(o.split(" diff=")[0])
         if not m or not ref or "bad-" in o:
             ctx.obligation_broken("harness did not understand a sweep op", (ln[:60] + " ... " + ln[-200:] + " -> " + o[:300]))
@@ -866,7 +912,10 @@ def oracle(ctx, H):
                  sample={"coder": s["coder"], "action": s["act"], "input_len": len(s["data"]), "tag": s["tag"], "runs": runs, "ref": ref[0]["text"][:120]})
         ctx.count("coder:" + kind, runs + 1)
         ctx.count("ref-ret:" + RET.get(ref[0]["ret"], str(ref[0]["ret"])))
-        ctx.count("source:" + s["tag"].split(":")[0])
+        src = s["tag"].split(":")[0]
+        if src.endswith((".xz", ".lzma", ".lz")):
+            src = "tests/files/" + src.split("-")[0] + "-*" + (":" + s["tag"].split(":")[1] if ":" in s["tag"] else "")
+        ctx.count("source:" + src)
         if diffs:
             for dm in re.finditer(r" diff=(\S+) (\[[^\]]*\])", o):
                 sl = dm.group(1)
@@ -949,6 +998,10 @@ def small_tie(ctx, H, model_ok):
         ctx.count("small:" + kind)
         if c_out[i] is None:
             continue
+        if m_out[i] == "skip":
+            # outside the modelled fragment (LZMA payload reached / sizes beyond lzma_index_append's limits)
+            ctx.count("small:skipped-by-model")
+            continue
         if c_out[i] != m_out[i]:
             res["mismatches"] += 1
             if res["mismatches"] <= 3:
@@ -968,6 +1021,8 @@ def run(ctx):
         "harness/c06_run.h implements the slicing semantics stated in its header comment; fairness = after the listed pieces every call offers all remaining input and 1 MiB of output",
         "thread schedules of the MT coders are those the OS produced during the run (systematic schedule exploration belongs to C07/C08)",
         "file-info decoder: only status and the resulting index are compared (the amount read around a seek depends on how much each call shows, by design)",
+        "lzma_microlzma_decoder with uncomp_size_is_exact=false: only status and output bytes are compared (the API declares the size inexact; how far the range decoder has read when the requested output is complete varies by one byte with the slicing)",
+        "known finding C06:lzma2-chunk-overrun (findings/C06-lzma2-chunk-overrun.md) is attributed only when both runs return LZMA_DATA_ERROR and an independent walk of the container and LZMA2 chunk headers shows the byte-at-a-time decoder failing exactly at chunk_end+1 inside an LZMA chunk",
     ]
     p_ok = ctx.lean_stage(["XzVerif.Props.C06"], exes=["xzm_c06"])
     exe = build(ctx)
